@@ -93,10 +93,20 @@ pub struct Ctx {
     pub replay: Option<Value>,
 }
 
-/// Wall-clock budget (ms) for one case; the watchdog thread exits the worker with code 3
-/// when the case that is running has been running longer than this.
+/// Budget (ms) for one case, measured in CPU time of the worker process: a generator or parser
+/// that loops burns CPU, a worker that is merely starved by other load on the machine does not
+/// (a wall-clock budget made busy machines report hangs that were none). The wall-clock limit
+/// is WALL_FACTOR times the budget; it catches a case that blocks without using CPU.
+/// The watchdog thread exits the worker with code 3 when either is exceeded.
 pub static CASE_BUDGET_MS: AtomicU64 = AtomicU64::new(20_000);
+const WALL_FACTOR: u64 = 30;
 static CASE_STARTED_MS: AtomicU64 = AtomicU64::new(0);
+static CASE_STARTED_CPU_MS: AtomicU64 = AtomicU64::new(0);
+fn cpu_ms() -> u64 {
+    let mut ts = libc::timespec { tv_sec: 0, tv_nsec: 0 };
+    unsafe { libc::clock_gettime(libc::CLOCK_PROCESS_CPUTIME_ID, &mut ts) };
+    ts.tv_sec as u64 * 1000 + ts.tv_nsec as u64 / 1_000_000
+}
 static T0: std::sync::OnceLock<Instant> = std::sync::OnceLock::new();
 fn now_ms() -> u64 {
     T0.get_or_init(Instant::now).elapsed().as_millis() as u64 + 1
@@ -116,6 +126,7 @@ impl Ctx {
             use std::os::unix::fs::FileExt;
             let _ = f.write_all_at(format!("{:020}", idx).as_bytes(), 0);
         }
+        CASE_STARTED_CPU_MS.store(cpu_ms(), Ordering::SeqCst);
         CASE_STARTED_MS.store(now_ms(), Ordering::SeqCst);
         true
     }
@@ -200,7 +211,12 @@ fn start_watchdog() {
         loop {
             std::thread::sleep(std::time::Duration::from_millis(200));
             let st = CASE_STARTED_MS.load(Ordering::SeqCst);
-            if st != 0 && now_ms() > st + CASE_BUDGET_MS.load(Ordering::SeqCst) {
+            if st == 0 {
+                continue;
+            }
+            let budget = CASE_BUDGET_MS.load(Ordering::SeqCst);
+            let cpu = cpu_ms().saturating_sub(CASE_STARTED_CPU_MS.load(Ordering::SeqCst));
+            if cpu > budget || now_ms() > st + budget.saturating_mul(WALL_FACTOR) {
                 unsafe { libc::_exit(3) };
             }
         }
